@@ -44,6 +44,10 @@ func (app *App) mount(prefix string, subApp *App) Router {
 	if prefix == "" {
 		prefix = "/"
 	}
+	// routes are registered under "/"+prefix when the leading slash is missing: so are the mounted apps
+	if prefix[0] != '/' {
+		prefix = "/" + prefix
+	}
 
 	// Support for configs of mounted-apps and sub-mounted-apps
 	for mountedPrefixes, subApp := range subApp.mountFields.appList {
